@@ -26,15 +26,18 @@ CONSTANTS Senders,      \* set of positive integers
           Chans,        \* set of positive integers (one subscriber channel each)
           Cap,          \* [Chans -> Nat] channel buffer capacity (0 = unbuffered)
           MaxSends,     \* sends per sender   (bounds for model checking only)
-          MaxSubs       \* subscriptions per channel (re-subscribe after unsubscribe)
+          MaxSubs,      \* subscriptions per channel (re-subscribe after unsubscribe)
+          NCallers      \* goroutines that call Unsubscribe on the same subscription (sync.Once in feedSub)
 
 VARIABLES inbox, cases, lock,
           spc, sval, nact, nsent, scount,      \* senders
-          cst, nsubs,                          \* subscription life cycle per channel
+          cst, nsubs, ucall,                   \* subscription life cycle per channel, Unsubscribe callers
           buf, rst,                            \* channel contents, receiver state
           dlog, order, whole, late, panic      \* history (observation only)
 
-vars == <<inbox, cases, lock, spc, sval, nact, nsent, scount, cst, nsubs, buf, rst,
+Callers == 1..NCallers
+
+vars == <<inbox, cases, lock, spc, sval, nact, nsent, scount, cst, nsubs, ucall, buf, rst,
           dlog, order, whole, late, panic>>
 
 Val(s, k) == s * 1000 + k
@@ -59,6 +62,7 @@ Init ==
   /\ nact = [s \in Senders |-> 0] /\ nsent = [s \in Senders |-> 0]
   /\ scount = [s \in Senders |-> 0]
   /\ cst = [c \in Chans |-> "idle"] /\ nsubs = [c \in Chans |-> 0]
+  /\ ucall = [c \in Chans |-> [x \in Callers |-> "idle"]]
   /\ buf = [c \in Chans |-> <<>>] /\ rst = [c \in Chans |-> "idle"]
   /\ dlog = [c \in Chans |-> <<>>] /\ order = <<>>
   /\ whole = [s \in Senders |-> {}] /\ late = FALSE /\ panic = FALSE
@@ -66,39 +70,46 @@ Init ==
 -----------------------------------------------------------------------------
 (* Subscribe(ch) *)
 SubBegin(c) ==
-  /\ cst[c] \in {"idle", "unsubbed"}
+  /\ cst[c] \in {"idle", "unsubbed"} /\ \A x \in Callers : ucall[c][x] # "called"
   /\ cst' = [cst EXCEPT ![c] = "subbing"]
   /\ nsubs' = [nsubs EXCEPT ![c] = @ + 1]
+  /\ ucall' = [ucall EXCEPT ![c] = [x \in Callers |-> "idle"]]
   /\ UNCHANGED <<inbox, cases, lock, spc, sval, nact, nsent, scount, buf, rst, dlog, order, whole, late, panic>>
 
 InboxAdd(c) ==         \* f.mu critical section of Subscribe
   /\ cst[c] = "subbing"
   /\ inbox' = Append(inbox, c)
   /\ cst' = [cst EXCEPT ![c] = "added"]
-  /\ UNCHANGED <<cases, lock, spc, sval, nact, nsent, scount, nsubs, buf, rst, dlog, order, whole, late, panic>>
+  /\ UNCHANGED <<cases, lock, spc, sval, nact, nsent, scount, nsubs, buf, rst, dlog, order, whole, late, panic, ucall>>
 
 SubEnd(c) ==
   /\ cst[c] = "added"
   /\ cst' = [cst EXCEPT ![c] = "active"]
-  /\ UNCHANGED <<inbox, cases, lock, spc, sval, nact, nsent, scount, nsubs, buf, rst, dlog, order, whole, late, panic>>
+  /\ UNCHANGED <<inbox, cases, lock, spc, sval, nact, nsent, scount, nsubs, buf, rst, dlog, order, whole, late, panic, ucall>>
 
-(* sub.Unsubscribe() -> f.remove(sub) *)
-UnsubBegin(c) ==
-  /\ cst[c] = "active"
-  /\ cst' = [cst EXCEPT ![c] = "unsubCheck"]
+(* sub.Unsubscribe(): sync.Once -- any number of callers; the first one to arrive runs f.remove(sub), *)
+(* every caller returns only after the removal has completed.                                        *)
+UnsubBegin(c, x) ==
+  /\ ucall[c][x] = "idle" /\ cst[c] \in {"active", "unsubCheck", "unsubSel", "unsubRet", "unsubbed"}
+  /\ ucall' = [ucall EXCEPT ![c][x] = "called"]
   /\ whole' = [s \in Senders |-> whole[s] \ {c}]   \* c is no longer active for the whole of any running send
-  /\ UNCHANGED <<inbox, cases, lock, spc, sval, nact, nsent, scount, nsubs, buf, rst, dlog, order, late, panic>>
+  /\ UNCHANGED <<inbox, cases, lock, spc, sval, nact, nsent, scount, cst, nsubs, buf, rst, dlog, order, late, panic>>
+
+BodyStart(c) ==        \* errOnce.Do: the first caller enters f.remove
+  /\ cst[c] = "active" /\ \E x \in Callers : ucall[c][x] = "called"
+  /\ cst' = [cst EXCEPT ![c] = "unsubCheck"]
+  /\ UNCHANGED <<inbox, cases, lock, spc, sval, nact, nsent, scount, nsubs, ucall, buf, rst, dlog, order, whole, late, panic>>
 
 UnsubInbox(c) ==       \* found in inbox: delete there and return
   /\ cst[c] = "unsubCheck" /\ Find(inbox, c) # 0
   /\ inbox' = Delete(inbox, Find(inbox, c))
   /\ cst' = [cst EXCEPT ![c] = "unsubRet"]
-  /\ UNCHANGED <<cases, lock, spc, sval, nact, nsent, scount, nsubs, buf, rst, dlog, order, whole, late, panic>>
+  /\ UNCHANGED <<cases, lock, spc, sval, nact, nsent, scount, nsubs, buf, rst, dlog, order, whole, late, panic, ucall>>
 
 UnsubMiss(c) ==        \* not in inbox: go to the select { removeSub <- ch ; <-sendLock }
   /\ cst[c] = "unsubCheck" /\ Find(inbox, c) = 0
   /\ cst' = [cst EXCEPT ![c] = "unsubSel"]
-  /\ UNCHANGED <<inbox, cases, lock, spc, sval, nact, nsent, scount, nsubs, buf, rst, dlog, order, whole, late, panic>>
+  /\ UNCHANGED <<inbox, cases, lock, spc, sval, nact, nsent, scount, nsubs, buf, rst, dlog, order, whole, late, panic, ucall>>
 
 UnsubLockedAt(c, pre) ==
   /\ cst[c] = pre /\ lock = 0
@@ -106,7 +117,7 @@ UnsubLockedAt(c, pre) ==
        IF i = 0 THEN panic' = TRUE /\ cases' = cases     \* delete(-1) panics in Go
                 ELSE panic' = panic /\ cases' = Delete(cases, i)
   /\ cst' = [cst EXCEPT ![c] = "unsubRet"]
-  /\ UNCHANGED <<inbox, lock, spc, sval, nact, nsent, scount, nsubs, buf, rst, dlog, order, whole, late>>
+  /\ UNCHANGED <<inbox, lock, spc, sval, nact, nsent, scount, nsubs, buf, rst, dlog, order, whole, late, ucall>>
 
 UnsubLocked(c) ==      \* case <-f.sendLock: delete under the send lock, give the lock back
   UnsubLockedAt(c, "unsubSel")
@@ -120,12 +131,13 @@ HandshakeAt(s, c, pre) ==
             /\ cases' = Delete(cases, i)
             /\ nact' = [nact EXCEPT ![s] = IF i <= nact[s] THEN @ - 1 ELSE @]
   /\ cst' = [cst EXCEPT ![c] = "unsubRet"]
-  /\ UNCHANGED <<inbox, lock, spc, sval, nsent, scount, nsubs, buf, rst, dlog, order, whole, late>>
+  /\ UNCHANGED <<inbox, lock, spc, sval, nsent, scount, nsubs, buf, rst, dlog, order, whole, late, ucall>>
 
 Handshake(s, c) == HandshakeAt(s, c, "unsubSel")
 
-UnsubEnd(c) ==
-  /\ cst[c] = "unsubRet"
+UnsubEnd(c, x) ==      \* a caller returns: only after the removal is complete
+  /\ ucall[c][x] = "called" /\ cst[c] \in {"unsubRet", "unsubbed"}
+  /\ ucall' = [ucall EXCEPT ![c][x] = "ret"]
   /\ cst' = [cst EXCEPT ![c] = "unsubbed"]
   /\ UNCHANGED <<inbox, cases, lock, spc, sval, nact, nsent, scount, nsubs, buf, rst, dlog, order, whole, late, panic>>
 
@@ -137,14 +149,14 @@ SendBegin(s, v) ==
   /\ sval' = [sval EXCEPT ![s] = v]
   /\ scount' = [scount EXCEPT ![s] = @ + 1]
   /\ nsent' = [nsent EXCEPT ![s] = 0]
-  /\ whole' = [whole EXCEPT ![s] = {c \in Chans : cst[c] = "active"}]
-  /\ UNCHANGED <<inbox, cases, lock, nact, cst, nsubs, buf, rst, dlog, order, late, panic>>
+  /\ whole' = [whole EXCEPT ![s] = {c \in Chans : cst[c] = "active" /\ \A x \in Callers : ucall[c][x] = "idle"}]
+  /\ UNCHANGED <<inbox, cases, lock, nact, cst, nsubs, buf, rst, dlog, order, late, panic, ucall>>
 
 Acquire(s) ==          \* <-f.sendLock
   /\ spc[s] = "lock" /\ lock = 0
   /\ lock' = s
   /\ spc' = [spc EXCEPT ![s] = "merge"]
-  /\ UNCHANGED <<inbox, cases, sval, nact, nsent, scount, cst, nsubs, buf, rst, dlog, order, whole, late, panic>>
+  /\ UNCHANGED <<inbox, cases, sval, nact, nsent, scount, cst, nsubs, buf, rst, dlog, order, whole, late, panic, ucall>>
 
 MergeBody(s, pre) ==
   /\ spc[s] = pre
@@ -153,7 +165,7 @@ MergeBody(s, pre) ==
   /\ nact' = [nact EXCEPT ![s] = Len(cases) + Len(inbox)]
   /\ order' = Append(order, sval[s])
   /\ spc' = [spc EXCEPT ![s] = "send"]
-  /\ UNCHANGED <<sval, nsent, scount, cst, nsubs, buf, rst, dlog, whole, late, panic>>
+  /\ UNCHANGED <<sval, nsent, scount, cst, nsubs, buf, rst, dlog, whole, late, panic, ucall>>
 
 Merge(s) ==            \* f.mu critical section of Send: sendCases += inbox
   MergeBody(s, "merge") /\ UNCHANGED lock
@@ -170,51 +182,51 @@ Deliver(s, i) ==       \* TrySend / select send case on the i-th active case suc
   /\ cases' = Swap(cases, i, nact[s])           \* deactivate(i)
   /\ nact' = [nact EXCEPT ![s] = @ - 1]
   /\ nsent' = [nsent EXCEPT ![s] = @ + 1]
-  /\ UNCHANGED <<inbox, lock, spc, sval, scount, cst, nsubs, rst, order, whole, panic>>
+  /\ UNCHANGED <<inbox, lock, spc, sval, scount, cst, nsubs, rst, order, whole, panic, ucall>>
 
 Release(s) ==          \* all cases chosen: f.sendLock <- struct{}{}
   /\ spc[s] = "send" /\ nact[s] = 0
   /\ lock' = 0
   /\ spc' = [spc EXCEPT ![s] = "ret"]
-  /\ UNCHANGED <<inbox, cases, sval, nact, nsent, scount, cst, nsubs, buf, rst, dlog, order, whole, late, panic>>
+  /\ UNCHANGED <<inbox, cases, sval, nact, nsent, scount, cst, nsubs, buf, rst, dlog, order, whole, late, panic, ucall>>
 
 SendEnd(s) ==          \* returns nsent[s]
   /\ spc[s] = "ret"
   /\ spc' = [spc EXCEPT ![s] = "idle"]
   /\ whole' = [whole EXCEPT ![s] = {}]
-  /\ UNCHANGED <<inbox, cases, lock, sval, nact, nsent, scount, cst, nsubs, buf, rst, dlog, order, late, panic>>
+  /\ UNCHANGED <<inbox, cases, lock, sval, nact, nsent, scount, cst, nsubs, buf, rst, dlog, order, late, panic, ucall>>
 
 -----------------------------------------------------------------------------
 (* the receiving side of a subscribed channel *)
 RecvBegin(c) ==
   /\ rst[c] = "idle"
   /\ rst' = [rst EXCEPT ![c] = "waiting"]
-  /\ UNCHANGED <<inbox, cases, lock, spc, sval, nact, nsent, scount, cst, nsubs, buf, dlog, order, whole, late, panic>>
+  /\ UNCHANGED <<inbox, cases, lock, spc, sval, nact, nsent, scount, cst, nsubs, buf, dlog, order, whole, late, panic, ucall>>
 
 RecvEnd(c) ==          \* returns Head(buf[c])
   /\ rst[c] = "waiting" /\ buf[c] # <<>>
   /\ buf' = [buf EXCEPT ![c] = Tail(@)]
   /\ rst' = [rst EXCEPT ![c] = "idle"]
-  /\ UNCHANGED <<inbox, cases, lock, spc, sval, nact, nsent, scount, cst, nsubs, dlog, order, whole, late, panic>>
+  /\ UNCHANGED <<inbox, cases, lock, spc, sval, nact, nsent, scount, cst, nsubs, dlog, order, whole, late, panic, ucall>>
 
 RecvAbort(c) ==        \* the receiver gives up waiting (select with a quit channel)
   /\ rst[c] = "waiting" /\ Len(buf[c]) <= Cap[c]
   /\ rst' = [rst EXCEPT ![c] = "idle"]
-  /\ UNCHANGED <<inbox, cases, lock, spc, sval, nact, nsent, scount, cst, nsubs, buf, dlog, order, whole, late, panic>>
+  /\ UNCHANGED <<inbox, cases, lock, spc, sval, nact, nsent, scount, cst, nsubs, buf, dlog, order, whole, late, panic, ucall>>
 
 -----------------------------------------------------------------------------
 Internal ==
-  \/ \E c \in Chans : InboxAdd(c) \/ UnsubInbox(c) \/ UnsubMiss(c) \/ UnsubLocked(c)
+  \/ \E c \in Chans : InboxAdd(c) \/ BodyStart(c) \/ UnsubInbox(c) \/ UnsubMiss(c) \/ UnsubLocked(c)
   \/ \E s \in Senders : Acquire(s) \/ Merge(s) \/ Release(s)
   \/ \E s \in Senders : \E i \in 1..nact[s] : Deliver(s, i)
   \/ \E s \in Senders, c \in Chans : Handshake(s, c)
 
 Returns ==
-  \/ \E c \in Chans : SubEnd(c) \/ UnsubEnd(c) \/ RecvEnd(c)
+  \/ \E c \in Chans : SubEnd(c) \/ RecvEnd(c) \/ \E x \in Callers : UnsubEnd(c, x)
   \/ \E s \in Senders : SendEnd(s)
 
 Calls ==
-  \/ \E c \in Chans : (nsubs[c] < MaxSubs /\ SubBegin(c)) \/ UnsubBegin(c) \/ RecvBegin(c)
+  \/ \E c \in Chans : (nsubs[c] < MaxSubs /\ SubBegin(c)) \/ RecvBegin(c) \/ \E x \in Callers : UnsubBegin(c, x)
   \* RecvAbort(c) is not part of Next: it only occurs in recorded traces (FeedTrace.tla), where the
   \* harness receivers stop at the end of a run; it does not touch the feed.
   \/ \E s \in Senders : scount[s] < MaxSends /\ SendBegin(s, Val(s, scount[s] + 1))
@@ -257,7 +269,7 @@ CountReturned ==
 (* clause 2: each subscriber sees values in send order (one order for all subscribers;      *)
 (* channels are FIFO so receive order = delivery order)                                     *)
 InSendOrder == \A c \in Chans : IsSubseq(dlog[c], order)
-(* clause 3: nothing is delivered to a channel after its unsubscribe has returned           *)
+(* clause 3: nothing is delivered to a channel after its unsubscribe (any call of it) has returned *)
 NoLateDelivery == ~late
 
 (* Only subscribers get values at all *)
